@@ -29,7 +29,7 @@ class _NoSelector:
         pass
 
 
-class RecFuture(futures._PyFuture):
+class RecFuture(asyncio.Future):
     """Pure-python future that records every completion attempt (for 'resolved exactly once')."""
 
     def __init__(self, *a, **kw):
